@@ -30,3 +30,91 @@ def sample_cases(run, k=6):
         return [{'case': cases[i][:400], 'impl': res[i][:400]} for i in range(0, len(cases) - 1, step)][:k]
     except Exception:
         return []
+
+
+def run_components(run, components, tier=None, proofs_ok=True):
+    """components: list of dicts {name: harness check, oracle: bool, what: text, normalise: fn|None, known: {substring: class}}
+    Runs each harness component (and the oracle when it has cases), records correspondence obligations, turns the
+    implementation-side property violations into VIOLATION replays (first one per component), returns aggregate stats."""
+    import shutil
+    agg = {'evaluations': 0, 'components': {}, 'corr_cases': 0, 'corr_diffs': 0}
+    found_input = False
+    samples = []
+    known = vflib.known_findings(run.prop)
+    base_rundir = run.rundir
+    for c in components:
+        name = c['name']
+        run.rundir = base_rundir / name
+        run.rundir.mkdir(parents=True, exist_ok=True)
+        t = tier or run.tier
+        if not proofs_ok and c.get('escalate', True):
+            t = 'thorough'
+        ok, out, stats = vflib.run_harness(name, t, run.seed, run.rundir, timeout=c.get('timeout', 3000))
+        if not ok:
+            run.oblige('harness_run(%s)' % name, False, out[-2000:])
+            continue
+        n, diffs = 0, []
+        cf = run.rundir / 'cases.txt'
+        if c.get('oracle') and cf.exists() and cf.stat().st_size > 0:
+            oko, logo = vflib.run_oracle_sharded(str(cf), str(run.rundir / 'model.txt'), timeout=c.get('timeout', 3000))
+            if not oko:
+                run.oblige('oracle_run(%s)' % name, False, logo[-2000:])
+            else:
+                n, diffs = vflib.diff_results(run.rundir, normalise=c.get('normalise'))
+                run.oblige('correspondence(%s: implementation = Model on %d cases)' % (c.get('what', name), n), not diffs, json.dumps(diffs[:2])[:1500])
+                sd = [l for l in (run.rundir / 'model.txt').read_text().split('\n') if 'SPECDIFF' in l]
+                if sd:
+                    run.oblige('model_equals_spec_on_cases(%s)' % name, False, 'SPECDIFF on %d cases' % len(sd))
+        agg['evaluations'] += int(stats.get('evaluations', 0))
+        agg['corr_cases'] += n
+        agg['corr_diffs'] += len(diffs)
+        agg['components'][name] = {k: v for k, v in stats.items() if k not in ('violations', 'samples')}
+        samples += sample_cases(run, 2) or [{'component': name, 'sample': s} for s in stats.get('samples', [])[:2]]
+        # known-finding classes: harness reports them as counters named known_<class>
+        for k, v in stats.items():
+            if k.startswith('known_') and isinstance(v, int) and v > 0:
+                cls = k[len('known_'):]
+                if cls in known:
+                    run.known('%s %s: %d cases (%s)' % (known[cls][0], cls, v, name))
+                else:
+                    run.violation('%s_%s' % (name, cls), {'what': 'class %s observed but not listed in known_findings.txt' % cls, 'check': name, 'count': v})
+                    found_input = True
+        vs = stats.get('violations', [])
+        if vs:
+            v = vs[0]
+            case = v.split(' : ')[0] if ' : ' in v else v
+            run.violation('%s_property' % name, {'what': c.get('what', name) + ': implementation violates the property', 'check': name,
+                                                 'case': case, 'detail': v[-600:], 'more': len(vs) - 1})
+            found_input = True
+    run.rundir = base_rundir
+    agg['samples'] = samples
+    return agg, found_input
+
+
+def finish_standard(run, agg, found_input, rule, distinct_key=None, assumptions=None, extra=None):
+    failed = [o for o in run.obligations if not o[1]]
+    if failed and not found_input:
+        run.violation('obligation', {'what': 'proof obligation or model/code tie no longer checks; search found no failing input',
+                                     'failed': [{'name': o[0], 'detail': o[2][-1500:]} for o in failed],
+                                     'search': {'evaluations': agg.get('evaluations')}}, no_input=True)
+    cov = {'correspondence_cases': agg.get('corr_cases'), 'correspondence_disagreements': agg.get('corr_diffs'),
+           'components': agg.get('components')}
+    if extra:
+        cov.update(extra)
+    distinct = agg.get('evaluations', 0) if distinct_key is None else distinct_key
+    return run.finish(samples=agg.get('samples') or ['(no sample)'], rule=rule, evaluations=agg.get('evaluations', 0),
+                      distinct=distinct, extra_cov=cov, assumptions=assumptions or [])
+
+
+def replay_standard(run, path, default_check):
+    p = json.loads(open(path).read())
+    run.tools_stage()
+    cf = run.rundir / 'replay_cases.txt'
+    cf.write_text(p.get('case', '') + '\n')
+    name = p.get('check', default_check)
+    ok, out, stats = vflib.run_harness(name, 'replay', run.seed, run.rundir, extra=[str(cf)])
+    print(json.dumps({k: v for k, v in stats.items() if k != 'samples'}, indent=1)[:4000])
+    if stats.get('violations'):
+        print('VIOLATION property=%s replay=%s' % (run.prop, path))
+        return 1
+    return 0
